@@ -71,3 +71,26 @@ Proof.
   split; [apply w_cfg_wf|]. split; [reflexivity|]. split; [reflexivity|]. split; [reflexivity|]. split; [reflexivity|].
   split; [apply w_f7_ok|]. split; [vm_compute; reflexivity|]. split; [exact (proj1 f7_repaired)|exact f23_repaired].
 Qed.
+
+(* the gas-per-block history (an append-only slice in the cache, one record per index in storage) *)
+Lemma gas_per_block_lookup_coherent cfg : cfg_wf cfg -> fix_block_dirty cfg = true -> fix_gpv_drop cfg = true -> fix_whitelist cfg = true ->
+  0 < csize cfg -> forall bs idx, blocks_ok cfg bs ->
+  gas_per_block (reinit cfg (reach cfg bs)) idx = gas_per_block (reach cfg bs) idx.
+Proof. intros CW F7 F23 F47 CS bs idx OK. apply coherent_gas_per_block. exact (cache_coherent cfg CW F7 F23 F47 CS bs OK). Qed.
+
+Lemma gas_per_block_restart_transparent_full cfg : cfg_wf cfg -> fix_block_dirty cfg = true -> fix_gpv_drop cfg = true -> fix_whitelist cfg = true ->
+  0 < csize cfg -> forall bs bs' idx start en, blocks_ok cfg bs -> blocks_ok cfg bs' ->
+  gas_per_block (fold_left (step cfg) bs' (reinit cfg (reach cfg bs))) idx = gas_per_block (fold_left (step cfg) bs' (reach cfg bs)) idx
+  /\ gas_sum_over (fold_left (step cfg) bs' (reinit cfg (reach cfg bs))) start en = gas_sum_over (fold_left (step cfg) bs' (reach cfg bs)) start en.
+Proof. intros CW F7 F23 F47 CS bs bs' idx start en OK OK'. exact (gas_per_block_restart_transparent cfg CW F7 F23 F47 CS bs bs' OK OK' idx start en). Qed.
+
+Lemma gas_per_block_first_of_equal_refuted :
+  let cfg := w_cfg true true in
+  cfg_wf cfg /\ fix_block_dirty cfg = true /\ fix_gpv_drop cfg = true /\ fix_whitelist cfg = true /\ blocks_ok cfg w_gpb
+  /\ gas_per_block (reach cfg w_gpb) 3 = gas_per_block (reinit cfg (reach cfg w_gpb)) 3
+  /\ gpb_at_first (c_gpb (A (reach cfg w_gpb))) 3 <> gpb_at_first (c_gpb (A (reinit cfg (reach cfg w_gpb)))) 3.
+Proof.
+  split; [apply w_cfg_wf|]. split; [reflexivity|]. split; [reflexivity|]. split; [reflexivity|]. split; [apply w_gpb_ok|].
+  destruct gpb_last_of_equal as (_ & _ & E1 & E2). split; [rewrite E1, E2; reflexivity|].
+  destruct gpb_first_of_equal_refuted as [F1 F2]. intros E. rewrite F1, F2 in E. discriminate.
+Qed.
